@@ -37,8 +37,32 @@ func runC19(p *Plan) {
 				p.Out.Count("text-sweep")
 			}
 		}
-		for i := 0; i < 3; i++ {
-			OpAssign(p.Out, dk, GenSrc(r, dk).V, SrcSpec{Kind: "foreign", Form: []string{"foreign", "foreignp"}[r.Intn(2)]}, modes[r.Intn(3)])
+		// no conversion applies: every buffer mode and both forms, over a destination that holds something
+		for _, form := range []string{"foreign", "foreignp"} {
+			for _, mode := range modes {
+				for i := 0; i < 2; i++ {
+					OpAssign(p.Out, dk, nonZeroOld(r, dk), SrcSpec{Kind: "foreign", Form: form}, mode)
+					p.Out.Count("foreign-src:" + mode)
+				}
+			}
 		}
 	}
+}
+
+// nonZeroOld draws a previous destination content that is not the zero value (non-empty for text kinds) whenever
+// the generator can produce one: a failed conversion that clears the destination must be visible.
+func nonZeroOld(r *Rng, dk string) reflect.Value {
+	v := GenSrc(r, dk).V
+	for i := 0; i < 20 && v.IsZero(); i++ {
+		v = GenSrc(r, dk).V
+	}
+	if (dk == "[]byte" || dk == "string") && v.Len() == 0 {
+		v = reflect.New(kindTypes[dk]).Elem()
+		if dk == "string" {
+			v.SetString("previous")
+		} else {
+			v.SetBytes([]byte("previous"))
+		}
+	}
+	return v
 }
